@@ -470,6 +470,33 @@ def _p_str_mod(self, other):
         return str.__mod__(realize(self), other)
 
 
+STUB_FORMAT = [False]
+_orig_format = None
+
+
+def _stub_render(obj):
+    with NoTracing():
+        sym = isinstance(obj, CrossHairValue)
+        plain = type(obj) in (int, float, bytes, str, bool, type(None))
+        seq = type(obj) in (list, tuple)
+    if sym:
+        STATS["msg_stub"] += 1
+        return "<symbolic>"
+    if plain:
+        return repr(obj)
+    if seq:
+        return "[" + ", ".join([_stub_render(x) for x in obj]) + "]"
+    return obj.__repr__()      # user classes: their own (traced) __repr__, nested f-strings come back here
+
+
+def _p_format(obj, format_spec=""):
+    """format(value, spec) as used by f-strings: while a harness holds STUB_FORMAT (it is checking that
+    rendering does not raise, not what it renders) symbolic operands are not realised"""
+    if STUB_FORMAT[0] and format_spec == "":
+        return _stub_render(obj)
+    return _orig_format(obj, format_spec)
+
+
 # --------------------------------------------------------------------------------------
 # 4. symbolic-key map
 # --------------------------------------------------------------------------------------
@@ -497,6 +524,10 @@ def install():
     _orig_str_mod = reg.get(str.__mod__)
     _TEMPLATES = raise_site_templates()
     reg[str.__mod__] = _p_str_mod
+    global _orig_format
+    _orig_format = reg.get(format)
+    if _orig_format is not None:
+        reg[format] = _p_format
     setup_binop(_h_and, {ops.and_})
     setup_binop(_h_or_xor, {ops.or_, ops.xor})
     setup_binop(_h_shift, {ops.lshift, ops.rshift})
